@@ -32,6 +32,7 @@ class Rule:
     shape: str
     rhs: Callable[[Sequence[Any], tuple], Any]
     kind: str = "definition"
+    raw: bool = False  # rhs returns a whole formula (e.g. an implication) instead of the value of f(args)
 
 
 class SpecFn:
@@ -49,9 +50,9 @@ class SpecFn:
     def t(self, *terms: Any) -> Any:
         return self.decl(*terms)
 
-    def rule(self, name: str, pos: int, shape: str, kind: str = "definition"):
+    def rule(self, name: str, pos: int, shape: str, kind: str = "definition", raw: bool = False):
         def deco(fn: Callable[[Sequence[Any], tuple], Any]):
-            self.rules.append(Rule(name, pos, shape, fn, kind))
+            self.rules.append(Rule(name, pos, shape, fn, kind, raw))
             return fn
         return deco
 
@@ -60,6 +61,9 @@ class SpecLib:
     def __init__(self) -> None:
         self.fns: dict[str, SpecFn] = {}
         self.by_decl: dict[int, SpecFn] = {}
+        # area-specific instantiators for (proved) lemmas that are not equations f(args) == rhs:
+        # fn(all_formulas) -> list of instances
+        self.extra_instantiators: list[Callable[[Sequence[Any]], list[Any]]] = []
 
     def add(self, f: SpecFn) -> SpecFn:
         self.fns[f.name] = f
@@ -246,7 +250,7 @@ def instantiate(hyps: Sequence[Any], goal: Any, bank: TermBank, lib: SpecLib, ro
                     rhs = r.rhs(args, sh[1:])
                     if rhs is None:
                         continue
-                    concl = app == rhs
+                    concl = rhs if r.raw else app == rhs
                     if sh[0] in ("always", "app"):
                         inst = concl
                     else:
@@ -255,10 +259,18 @@ def instantiate(hyps: Sequence[Any], goal: Any, bank: TermBank, lib: SpecLib, ro
                     instances.append(inst)
                     new_formulas.append(inst)
                     used[r.name] = used.get(r.name, 0) + 1
-                    if _is_seq(app):
+                    if _is_seq(app) and not r.raw:
                         m.add_alias(app, rhs)
             if len(instances) > limit:
                 return instances, used
+        for ex in lib.extra_instantiators:
+            for inst in ex(list(hyps) + [goal] + instances):
+                key = ("extra", inst.get_id())
+                if key not in inst_keys:
+                    inst_keys.add(key)
+                    instances.append(inst)
+                    new_formulas.append(inst)
+                    used["extra"] = used.get("extra", 0) + 1
         if not new_formulas:
             break
         frontier = new_formulas
